@@ -1,6 +1,6 @@
 #!/bin/bash
 # Real-code demonstrations of the genuine defects found by the contract checks (DESIGN.md §8).
-# usage: demo.sh <xcp-binary> <F1|F2|F3|F4|F5|F6|F7|F8>      exit 0 = behaviour correct, exit 1 = defect shown
+# usage: demo.sh <xcp-binary> <F1..F11>      exit 0 = behaviour correct, exit 1 = defect shown
 X=$1; WHICH=$2
 D=$(mktemp -d /tmp/xcpdemo.XXXXXX); trap 'rm -rf "$D"' EXIT; cd "$D" || exit 2
 case "$WHICH" in
@@ -62,5 +62,11 @@ F10) # a directory copied onto itself through another spelling: the walker recur
         if [ "$n" != 2 ] || [ $rc = 0 ]; then echo "DEFECT F10: 'xcp -r d $dst' exit $rc left $n entries under d (expected 2 and a refusal)"; exit 1; fi
     done
     echo "F10 ok"; exit 0;;
+F11) # a source that ends in `..`: entries were created beside the destination instead of inside it
+    mkdir -p top/a/b top/out; echo x > top/a/f
+    ( cd top/a/b && timeout 120 "$X" -r .. ../../out >/dev/null 2>&1 ); rc=$?
+    if [ -e top/f ] || [ -e top/b ]; then echo "DEFECT F11: 'xcp -r .. ../../out' (exit $rc) created entries in the parent of the destination: $(ls top | tr '\n' ' ')"; exit 1; fi
+    if [ $rc = 0 ] && { [ ! -f top/out/f ] || [ ! -d top/out/b ]; }; then echo "DEFECT F11: exit 0 but the tree is not inside the destination"; exit 1; fi
+    echo "F11 ok (exit $rc)"; exit 0;;
 *) echo "unknown finding $WHICH"; exit 2;;
 esac
